@@ -1,3 +1,4 @@
+pub mod c10;
 pub mod c12;
 pub mod c13;
 pub mod c14;
@@ -9,6 +10,7 @@ pub type CheckFn = fn(&mut Ctx) -> (&'static str, String, bool);
 
 pub fn lookup(id: &str) -> Option<CheckFn> {
     Some(match id {
+        "C10" => c10::run,
         "C12" => c12::run,
         "C13" => c13::run,
         "C14" => c14::run,
